@@ -124,3 +124,21 @@ def callee_name(fn: ast.AST, c: ast.Call) -> str | None:
             return srcs[0].attr  # type: ignore[union-attr]
         return f.id
     return None
+
+
+def region_when_true(mod: Module, node: ast.If) -> list[ast.stmt]:
+    """Statements that run when the *core* condition of `node` holds. For `if C:` that is the body; for the guard form
+    `if not C: <leave>` it is the else branch plus - when the body always leaves the block - the statements that follow the if."""
+    neg = isinstance(node.test, ast.UnaryOp) and isinstance(node.test.op, ast.Not)
+    if not neg:
+        return list(node.body)
+    out = list(node.orelse)
+    if node.body and isinstance(node.body[-1], (ast.Return, ast.Raise, ast.Continue, ast.Break)):
+        parent = mod.parent(node)
+        for fld in ("body", "orelse", "finalbody"):
+            b = getattr(parent, fld, None)
+            if isinstance(b, list) and node in b:
+                out += b[b.index(node) + 1 :]
+        if isinstance(parent, ast.ExceptHandler) and node in parent.body:
+            out += parent.body[parent.body.index(node) + 1 :]
+    return out
